@@ -278,22 +278,16 @@ func (c *Ctx) evalIdent(id *ast.Ident) Value {
 	}
 	// spec mode
 	if id.Name == "retvar" && c.fr != nil && c.fr.fi != nil {
-		// retvar: the local variable named by the function's final `return x` (robust against renaming it)
-		body := c.fr.fi.Decl.Body
-		if n := len(body.List); n > 0 {
-			if rs, ok := body.List[n-1].(*ast.ReturnStmt); ok && len(rs.Results) == 1 {
-				if rid, ok := unparen(rs.Results[0]).(*ast.Ident); ok {
-					if o, ok := c.fr.info.ObjectOf(rid).(*types.Var); ok {
-						if key, ok := c.fr.keyOf(o); ok {
-							if v, ok := c.st.store[key]; ok {
-								return v
-							}
-						}
-					}
+		// retvar: the local variable in which the function builds what it returns (robust against renaming it,
+		// against `res := x; return res`, and against an early `return nil` / `return none` elsewhere)
+		if o := retvarOf(c.fr); o != nil {
+			if key, ok := c.fr.keyOf(o); ok {
+				if v, ok := c.st.store[key]; ok {
+					return v
 				}
 			}
 		}
-		panic(engineErr("spec: retvar: the function does not end in `return <local variable>` (anchor lost)"))
+		panic(engineErr("spec: retvar: no unique local variable that the function builds and returns (anchor lost)"))
 	}
 	if c.fr != nil {
 		if key, ok := c.fr.scope[id.Name]; ok {
@@ -313,6 +307,85 @@ func (c *Ctx) evalIdent(id *ast.Ident) Value {
 		}
 	}
 	panic(engineErr("spec: unknown identifier %q", id.Name))
+}
+
+// retvarOf: among the local variables named by `return x` statements (following `y := x` aliases), the one that is
+// built in the function: made by make(...), appended to, or assigned by index.  Nil if there is no unique one.
+func retvarOf(fr *Frame) *types.Var {
+	body := fr.fi.Decl.Body
+	info := fr.info
+	alias := map[*types.Var]*types.Var{}
+	built := map[*types.Var]bool{}
+	var returned []*types.Var
+	objOf := func(e ast.Expr) *types.Var {
+		id, ok := unparen(e).(*ast.Ident)
+		if !ok {
+			return nil
+		}
+		o, _ := info.ObjectOf(id).(*types.Var)
+		return o
+	}
+	ast.Inspect(body, func(n ast.Node) bool {
+		switch s := n.(type) {
+		case *ast.FuncLit:
+			return false
+		case *ast.ReturnStmt:
+			if len(s.Results) == 1 {
+				if o := objOf(s.Results[0]); o != nil {
+					returned = append(returned, o)
+				}
+			}
+		case *ast.AssignStmt:
+			for i, l := range s.Lhs {
+				if ie, ok := unparen(l).(*ast.IndexExpr); ok {
+					if o := objOf(ie.X); o != nil {
+						built[o] = true
+					}
+				}
+				if i < len(s.Rhs) && len(s.Lhs) == len(s.Rhs) {
+					lo := objOf(l)
+					if lo == nil {
+						continue
+					}
+					if ro := objOf(s.Rhs[i]); ro != nil && s.Tok == token.DEFINE {
+						alias[lo] = ro
+					}
+					if ce, ok := unparen(s.Rhs[i]).(*ast.CallExpr); ok {
+						if fid, ok := unparen(ce.Fun).(*ast.Ident); ok && (fid.Name == "make" || fid.Name == "append") {
+							built[lo] = true
+						}
+					}
+				}
+			}
+		}
+		return true
+	})
+	seen := map[*types.Var]bool{}
+	var cands []*types.Var
+	for _, o := range returned {
+		for k := 0; k < 4; k++ {
+			if a, ok := alias[o]; ok {
+				o = a
+			}
+		}
+		if !seen[o] {
+			seen[o] = true
+			cands = append(cands, o)
+		}
+	}
+	var good []*types.Var
+	for _, o := range cands {
+		if built[o] {
+			good = append(good, o)
+		}
+	}
+	if len(good) == 1 {
+		return good[0]
+	}
+	if len(good) == 0 && len(cands) == 1 {
+		return cands[0]
+	}
+	return nil
 }
 
 func (c *Ctx) ghost(g *GhostDecl) Value {
@@ -449,6 +522,7 @@ func (x *Exec) valueFacts(v Value) {
 	case KSlice:
 		if !v.Len.IsLit() {
 			x.addFact(v.Len, And(Le(IntLit(0), v.Len), Le(v.Len, IntStr("4611686018427387904"))))
+			x.noteRange(v.Len, big.NewInt(0), new(big.Int).Lsh(big.NewInt(1), 62))
 		}
 		if v.IsNil != True && v.IsNil != False {
 			x.addFact(v.IsNil, Implies(v.IsNil, Eq(v.Len, IntLit(0))))
@@ -637,6 +711,20 @@ func (c *Ctx) evalUnary(e *ast.UnaryExpr) Value {
 			return c.alloc(sv, c.typeOf(e))
 		}
 		if id, ok := unparen(e.X).(*ast.Ident); ok && !c.spec {
+			if obj, _ := c.info.ObjectOf(id).(*types.Var); obj != nil && !x.isBoxed(obj.Type()) {
+				if _, _, isStruct := x.isRepoStruct(obj.Type()); isStruct {
+					if _, local := c.fr.keyOf(obj); local {
+						// &local of a struct variable: a fresh object holding the current value; the variable must not be written afterwards
+						if c.fr.addrTaken == nil {
+							c.fr.addrTaken = map[*types.Var]bool{}
+						}
+						c.fr.addrTaken[obj] = true
+						if sv := c.eval(id); sv.Kind == KStruct {
+							return c.alloc(sv, c.typeOf(e))
+						}
+					}
+				}
+			}
 			if obj, _ := c.info.ObjectOf(id).(*types.Var); obj != nil && x.isBoxed(obj.Type()) {
 				if _, local := c.fr.keyOf(obj); local {
 					// &local: a fresh box holding the current value; the variable must not be written afterwards
@@ -980,7 +1068,10 @@ func (c *Ctx) arith(op token.Token, l, r *Term, T types.Type, e ast.Expr) *Term 
 	c.checkArith(res, T, e, op.String())
 	// Go integer arithmetic wraps around; the value is modelled faithfully even where
 	// the overflow obligation (a separate proof obligation) fails
-	if _, _, ok := intRange(T); ok && !res.IsLit() {
+	if lo, hi, ok := intRange(T); ok && !res.IsLit() {
+		if bl, bh, known := c.x.bounds(res, 0); known && bl.Cmp(lo) >= 0 && bh.Cmp(hi) <= 0 {
+			return res // cannot leave the type's range: no wrap-around case
+		}
 		return Ite(inRange(res, T), res, wrapTo(res, T))
 	}
 	return res
